@@ -126,8 +126,112 @@ def subst(s, st, out):
     return s.replace('@OUT', out).replace('@ST', st)
 
 
+def do_step(storage, step, st, out, base, marks=False):
+    """Performs one LocalStorage operation and judges it. Returns (bad, info)."""
+    import os
+    key = subst(step['key'], st, out)
+    fn = subst(step.get('filename', ''), st, out)
+    before = snapshot(base)
+    _REC['events'] = []
+    _REC['armed'] = True
+    raised = None
+    result = None
+    if marks:
+        os.path.exists('/VLAB-OP-BEGIN')     # visible in an strace of this process
+    try:
+        if step['op'] == 'exists':
+            result = storage.exists(key)
+        elif step['op'] == 'delete':
+            storage.delete(key)
+        else:
+            fh = storage.file_handle(key, fn, mode=step['mode'])
+            try:
+                m = step['mode']
+                if 'r' in m and '+' not in m:
+                    fh.read()
+                else:
+                    fh.write(b'NEW' if 'b' in m else 'NEW')
+            finally:
+                fh.close()
+    except BaseException as ex:   # noqa
+        raised = type(ex).__name__
+    finally:
+        _REC['armed'] = False
+        if marks:
+            os.path.exists('/VLAB-OP-END')
+    events = list(_REC['events'])
+    after = snapshot(base)
+    bad = []
+    changed = sorted(p for p in set(before) | set(after) if before.get(p) != after.get(p))
+    # the one direct child this key may touch (judged on the layout as it was when the operation started)
+    allowed = step.get('_allowed')
+    for p in changed:
+        parts = p.split(os.sep)
+        if parts[0] != 'storage':
+            bad.append(('outside-modified', f'{step}: path outside the storage dir changed: {p}: '
+                        f'{before.get(p)} -> {after.get(p)}'))
+        elif len(parts) < 2 or parts[1] != allowed:
+            bad.append(('other-entry-modified', f'{step}: changed {p}, but the key names child {allowed!r}'))
+        elif step['op'] != 'delete' and len(parts) > 3:
+            bad.append(('nested-path-modified', f'{step}: changed {p}, deeper than a file directly in the key dir'))
+        elif step['op'] == 'exists':
+            bad.append(('exists-modified', f'{step}: exists() changed {p}'))
+    real_base = os.path.realpath(base)
+    for ev, p in events:
+        try:
+            ap = os.path.realpath(p if os.path.isabs(p) else os.path.join(os.getcwd(), p))
+        except (OSError, ValueError):
+            continue
+        if not (ap == real_base or ap.startswith(real_base + os.sep)):
+            continue      # interpreter internals elsewhere on the machine
+        rel = os.path.relpath(ap, real_base).split(os.sep)
+        if rel[0] != 'storage':
+            bad.append(('outside-accessed', f'{step}: {ev}({p}) resolves outside the storage dir: {ap}'))
+        elif len(rel) >= 2 and rel[1] != allowed:
+            bad.append(('other-entry-accessed', f'{step}: {ev}({p}) touches child {rel[1]!r}, key names {allowed!r}'))
+    return bad, {'raised': raised, 'changed': changed, 'events': len(events), 'result': result}
+
+
+def allowed_child(st, key):
+    import os
+    if key and '/' not in key and '\0' not in key:
+        try:
+            rp = os.path.realpath(os.path.join(st, key))
+            if os.path.dirname(rp) == os.path.realpath(st):
+                return os.path.basename(rp)
+        except (OSError, ValueError):
+            return None
+    return None
+
+
+def mutate_layout(kind, st, out, key):
+    """Harness-side layout change between two operations (what another program, or the user, may do)."""
+    import os
+    import shutil
+    p = os.path.join(st, key)
+    if os.path.islink(p) or os.path.isfile(p):
+        os.unlink(p)
+    elif os.path.isdir(p):
+        shutil.rmtree(p)
+    if kind == 'key-to-outside-dir':
+        os.symlink(os.path.join(out, 'odir'), p)
+    elif kind == 'key-to-parent':
+        os.symlink('..', p)
+    elif kind == 'key-to-sibling':
+        os.symlink('k2', p)
+    elif kind == 'key-to-file':
+        with open(p, 'w') as f:
+            f.write('now a file')
+    elif kind == 'key-dir-with-outside-file-link':
+        os.mkdir(p)
+        os.symlink(os.path.join(out, 'secret.txt'), os.path.join(p, 'data.pickle'))
+    elif kind == 'key-removed':
+        pass
+
+
 def run_case(case, base=None, marks=False):
-    """Returns (bad, info)."""
+    """Single operation ({'op', 'key', ...}) or a sequence ({'steps': [...]}) on one sandbox / one storage path.
+    Returns (bad, info)."""
     import os
     import shutil
     import sys
@@ -142,81 +246,48 @@ def run_case(case, base=None, marks=False):
     try:
         st, out = build_sandbox(base)
         storage = LocalStorage(st, with_gitignore=False)
-        key = subst(case['key'], st, out)
-        fn = subst(case.get('filename', ''), st, out)
-        before = snapshot(base)
-        _REC['events'] = []
-        _REC['armed'] = True
-        raised = None
-        result = None
-        if marks:
-            os.path.exists('/VLAB-OP-BEGIN')     # visible in an strace of this process
-        try:
-            if case['op'] == 'exists':
-                result = storage.exists(key)
-            elif case['op'] == 'delete':
-                storage.delete(key)
-            else:
-                fh = storage.file_handle(key, fn, mode=case['mode'])
-                try:
-                    m = case['mode']
-                    if 'r' in m and '+' not in m:
-                        fh.read()
-                    else:
-                        fh.write(b'NEW' if 'b' in m else 'NEW')
-                finally:
-                    fh.close()
-        except BaseException as ex:   # noqa
-            raised = type(ex).__name__
-        finally:
-            _REC['armed'] = False
-            if marks:
-                os.path.exists('/VLAB-OP-END')
-        events = list(_REC['events'])
-        after = snapshot(base)
-        bad = []
-        changed = sorted(p for p in set(before) | set(after) if before.get(p) != after.get(p))
-        # the one direct child this key may touch
-        allowed = None
-        if key and '/' not in key and '\0' not in key:
-            kp = os.path.join(st, key)
-            try:
-                rp = os.path.realpath(kp)
-                if os.path.dirname(rp) == os.path.realpath(st):
-                    allowed = os.path.basename(rp)
-            except (OSError, ValueError):
-                allowed = None
-        for p in changed:
-            parts = p.split(os.sep)
-            if parts[0] != 'storage':
-                bad.append(('outside-modified', f'{case}: path outside the storage dir changed: {p}: '
-                            f'{before.get(p)} -> {after.get(p)}'))
-            elif len(parts) < 2 or parts[1] != allowed:
-                bad.append(('other-entry-modified', f'{case}: changed {p}, but the key names child {allowed!r}'))
-            elif case['op'] != 'delete' and len(parts) > 3:
-                bad.append(('nested-path-modified', f'{case}: changed {p}, deeper than a file directly in the key dir'))
-            elif case['op'] == 'exists':
-                bad.append(('exists-modified', f'{case}: exists() changed {p}'))
-        real_st = os.path.realpath(st)
-        real_base = os.path.realpath(base)
-        for ev, p in events:
-            try:
-                ap = os.path.realpath(p if os.path.isabs(p) else os.path.join(os.getcwd(), p))
-            except (OSError, ValueError):
+        steps = case.get('steps') or [case]
+        bad, info = [], {'raised': None, 'changed': [], 'events': 0, 'result': None, 'steps': 0}
+        for step in steps:
+            if 'mutate' in step:
+                mutate_layout(step['mutate'], st, out, step['key'])
                 continue
-            if not (ap == real_base or ap.startswith(real_base + os.sep)):
-                continue      # interpreter internals elsewhere on the machine
-            rel = os.path.relpath(ap, real_base).split(os.sep)
-            if rel[0] != 'storage':
-                bad.append(('outside-accessed', f'{case}: {ev}({p}) resolves outside the storage dir: {ap}'))
-            elif len(rel) >= 2 and rel[1] != allowed:
-                bad.append(('other-entry-accessed', f'{case}: {ev}({p}) touches child {rel[1]!r}, key names {allowed!r}'))
-        info = {'raised': raised, 'changed': changed, 'events': len(events), 'result': result}
+            if step.get('new_storage_object'):
+                storage = LocalStorage(st, with_gitignore=False)
+            step = dict(step, _allowed=allowed_child(st, subst(step['key'], st, out)))
+            b, i = do_step(storage, step, st, out, base, marks)
+            bad += b
+            info['steps'] += 1
+            info['events'] += i['events']
+            info['changed'] += i['changed']
+            info['raised'] = i['raised']
+            if b:
+                break
         return bad, info
     finally:
         _REC['armed'] = False
         if own:
             shutil.rmtree(base, ignore_errors=True)
+
+
+def gen_sequence(rng):
+    """Multi-step history on one storage path: a key is used legitimately, then the layout changes under it."""
+    key = rng.choice(['new', 'k1', 'k2', 'seqkey'])
+    steps = []
+    def op():
+        o = rng.choice(['exists', 'file_handle', 'file_handle', 'delete'])
+        s = {'op': o, 'key': key, 'new_storage_object': rng.random() < 0.3}
+        if o == 'file_handle':
+            s['filename'] = rng.choice(['metadata.json', 'data.pickle', 'new.txt', 'inner.txt'])
+            s['mode'] = rng.choice(['r', 'w', 'a', 'rb', 'wb'])
+        return s
+    for _ in range(rng.randrange(1, 3)):
+        steps.append(op())
+    steps.append({'mutate': rng.choice(['key-to-outside-dir', 'key-to-outside-dir', 'key-to-parent', 'key-to-sibling',
+                                        'key-to-file', 'key-dir-with-outside-file-link', 'key-removed']), 'key': key})
+    for _ in range(rng.randrange(1, 4)):
+        steps.append(op())
+    return {'steps': steps}
 
 
 def strace_batch(rep, cases):
@@ -282,14 +353,28 @@ def run_shard(rep):
     cfg = META['tiers'][rep.tier]
     rep.require('ops_raised', 1000)
     rep.require('ops_succeeded', 1000)
+    rep.require('sequences', 500)
     sample = []
     for j in range(rep.shard, cfg['n'], rep.nshards):
         if rep.expired():
             rep.count('skipped_for_time')
             break
         rng = random.Random(f'{rep.seed}:C18:{j}')
-        case = gen_case(rng)
+        seq = rng.random() < 0.25
+        case = gen_sequence(rng) if seq else gen_case(rng)
         bad, info = run_case(case)
+        if seq:
+            rep.count('sequences')
+            rep.count('sequence_steps', info['steps'])
+            rep.case(json.dumps(case, sort_keys=True), True)
+            seen = set()
+            for key, msg in bad:
+                if key not in seen:
+                    seen.add(key)
+                    rep.violation(key + '/sequence', msg + f' :: history {case["steps"]}', {'case': case})
+            if len(sample) < 400:
+                sample.append(case)
+            continue
         hostile = any(c in case['key'] + case.get('filename', '') for c in ('/', '\\', '.', '\0', '@', 'link', '~'))
         rep.case(json.dumps(case, sort_keys=True), hostile)
         rep.count('ops_raised' if info['raised'] else 'ops_succeeded')
